@@ -590,16 +590,22 @@ def first_match_loops(tree: ast.Module) -> None:
 # ---------------------------------------------------------------------------
 
 def select_then_call(tree: ast.Module) -> None:
-    """h = <function reference>  on every path of an if-chain (or a default assignment followed by an if-chain), h used exactly once afterwards
-    in the same block, as the callee of a call whose arguments are names not re-bound in between:
-         if A: h = f elif B: h = g else: h = k ;  r = h(x, y)     ->   if A: r = f(x, y) elif B: r = g(x, y) else: r = k(x, y)
-    (and the same with `return h(x, y)` / an expression statement)."""
+    """h = <function reference>  on every path of a run of statements that only choose h (a default assignment, if-chains), h read exactly once
+    in the function, as the callee of a call whose arguments are plain names / attributes / constants:
+         if A: h = f elif B: h = g else: h = k ; .. ; r = h(x, y)     ->   .. ; if A: r = f(x, y) elif B: r = g(x, y) else: r = k(x, y)
+    (also `return h(..)`, an expression statement, `yield from h(..)`).  When the call does not follow the choice directly, the conditions are
+    re-evaluated where the call is: they must then be comparisons / isinstance tests over names that are never assigned in the function."""
+
+    def norm(s: ast.stmt) -> ast.stmt:
+        if isinstance(s, ast.AnnAssign) and s.value is not None and isinstance(s.target, ast.Name):
+            return ast.copy_location(ast.Assign(targets=[s.target], value=s.value), s)
+        return s
 
     def assigns_only(stmts: List[ast.stmt], name: str) -> bool:
-        """Every path through stmts ends having assigned *name* a function reference, and does nothing else but such assignments / nested ifs."""
         if not stmts:
             return False
         for s in stmts:
+            s = norm(s)
             if isinstance(s, ast.Assign) and len(s.targets) == 1 and isinstance(s.targets[0], ast.Name) and s.targets[0].id == name and _is_func_ref(s.value):
                 continue
             if isinstance(s, ast.If) and assigns_only(s.body, name) and (not s.orelse or assigns_only(s.orelse, name)):
@@ -608,8 +614,8 @@ def select_then_call(tree: ast.Module) -> None:
         return True
 
     def total(stmts: List[ast.stmt], name: str) -> bool:
-        """name is assigned on every path through stmts."""
         for s in stmts:
+            s = norm(s)
             if isinstance(s, ast.Assign) and isinstance(s.targets[0], ast.Name) and s.targets[0].id == name:
                 return True
             if isinstance(s, ast.If) and s.orelse and total(s.body, name) and total(s.orelse, name):
@@ -619,63 +625,124 @@ def select_then_call(tree: ast.Module) -> None:
     def push(stmts: List[ast.stmt], name: str, make) -> List[ast.stmt]:
         out: List[ast.stmt] = []
         for s in stmts:
+            s = norm(s)
             if isinstance(s, ast.Assign):
                 out.append(ast.copy_location(make(s.value), s))
             else:
                 assert isinstance(s, ast.If)
-                out.append(ast.copy_location(ast.If(test=s.test, body=push(s.body, name, make), orelse=push(s.orelse, name, make) if s.orelse else []), s))
+                out.append(ast.copy_location(ast.If(test=copy.deepcopy(s.test), body=push(s.body, name, make), orelse=push(s.orelse, name, make) if s.orelse else []), s))
         return out
 
-    for fn in [n for n in ast.walk(tree) if isinstance(n, (ast.FunctionDef, ast.AsyncFunctionDef))]:
-        for holder in ast.walk(fn):
-            for fld in ("body", "orelse", "finalbody"):
-                body = getattr(holder, fld, None)
-                if not (isinstance(body, list) and len(body) >= 2 and isinstance(body[0], ast.stmt)):
-                    continue
-                i = 0
-                while i < len(body) - 1:
-                    use = body[i + 1]
-                    # the use: a statement whose value is a call h(args)
-                    call = None
-                    if isinstance(use, (ast.Return, ast.Expr)) and isinstance(use.value, ast.Call):
-                        call = use.value
-                    elif isinstance(use, ast.Assign) and isinstance(use.value, ast.Call):
-                        call = use.value
-                    elif isinstance(use, (ast.Return, ast.Expr)) and isinstance(use.value, (ast.YieldFrom,)) and isinstance(use.value.value, ast.Call):
-                        call = use.value.value
-                    if call is None or not isinstance(call.func, ast.Name):
-                        i += 1
-                        continue
-                    name = call.func.id
-                    # the selection: statements body[j..i] that only assign `name` function references
-                    j = i
-                    while j >= 0 and assigns_only([body[j]], name):
-                        j -= 1
-                    sel = body[j + 1:i + 1]
-                    if not sel or not total_seq(sel, name, total):
-                        i += 1
-                        continue
-                    # `name` must not be used anywhere else in the function
-                    n_loads = sum(1 for n in ast.walk(fn) if isinstance(n, ast.Name) and n.id == name and isinstance(n.ctx, ast.Load))
-                    if n_loads != 1:
-                        i += 1
-                        continue
-                    if not all(isinstance(a, (ast.Name, ast.Constant, ast.Attribute)) for a in call.args) or any(k.arg is None for k in call.keywords) \
-                            or not all(isinstance(k.value, (ast.Name, ast.Constant, ast.Attribute)) for k in call.keywords):
-                        i += 1
-                        continue
+    def tests_of(stmts: List[ast.stmt]) -> List[ast.expr]:
+        out: List[ast.expr] = []
+        for s in stmts:
+            if isinstance(s, ast.If):
+                out.append(s.test)
+                out.extend(tests_of(s.body))
+                out.extend(tests_of(s.orelse))
+        return out
 
-                    def make(fref: ast.expr, use=use, call=call):
-                        c2 = ast.Call(func=copy.deepcopy(fref), args=[copy.deepcopy(a) for a in call.args], keywords=[copy.deepcopy(k) for k in call.keywords])
-                        u2 = copy.deepcopy(use)
-                        for par in ast.walk(u2):
-                            for f2, v2 in ast.iter_fields(par):
-                                if isinstance(v2, ast.Call) and isinstance(v2.func, ast.Name) and v2.func.id == name:
-                                    setattr(par, f2, c2)
-                        return u2
-                    new_sel = sequence_push(sel, name, make, push)
-                    body[j + 1:i + 2] = new_sel
-                    i = j + 1 + len(new_sel)
+    def stable(test: ast.expr, fn: ast.AST) -> bool:
+        stored = {n.id for n in ast.walk(fn) if isinstance(n, ast.Name) and isinstance(n.ctx, (ast.Store, ast.Del))}
+        for n in ast.walk(test):
+            if isinstance(n, ast.Call) and not (isinstance(n.func, ast.Name) and n.func.id in ("isinstance", "issubclass", "type", "len")):
+                return False
+            if isinstance(n, (ast.Await, ast.Yield, ast.YieldFrom, ast.NamedExpr, ast.Lambda, ast.Subscript)):
+                return False
+            if isinstance(n, ast.Name) and n.id in stored:
+                return False
+        return True
+
+    for fn in [n for n in ast.walk(tree) if isinstance(n, (ast.FunctionDef, ast.AsyncFunctionDef))]:
+        body = fn.body
+        i = 0
+        while i < len(body):
+            st0 = norm(body[i])
+            cand = None
+            if isinstance(st0, ast.Assign) and len(st0.targets) == 1 and isinstance(st0.targets[0], ast.Name) and _is_func_ref(st0.value):
+                cand = st0.targets[0].id
+            elif isinstance(st0, ast.If):
+                names = {n.targets[0].id for n in ast.walk(st0) if isinstance(n, ast.Assign) and len(n.targets) == 1 and isinstance(n.targets[0], ast.Name) and _is_func_ref(n.value)}
+                cand = next((nm for nm in sorted(names) if assigns_only([st0], nm)), None)
+            if cand is None or not assigns_only([body[i]], cand):
+                i += 1
+                continue
+            name = cand
+            j = i
+            while j + 1 < len(body) and assigns_only([body[j + 1]], name):
+                j += 1
+            sel = [norm(x) for x in body[i:j + 1]]
+            if not total(sel, name):
+                i = j + 1
+                continue
+            # stores of the name: only inside the selection
+            sel_ids = {id(n) for x in body[i:j + 1] for n in ast.walk(x)}
+            if any(isinstance(n, ast.Name) and n.id == name and isinstance(n.ctx, (ast.Store, ast.Del)) and id(n) not in sel_ids for n in ast.walk(fn)) \
+                    or any(isinstance(n, (ast.Nonlocal, ast.Global)) and name in n.names for n in ast.walk(fn)):
+                i = j + 1
+                continue
+            loads = [n for n in ast.walk(fn) if isinstance(n, ast.Name) and n.id == name and isinstance(n.ctx, ast.Load)]
+            if len(loads) != 1:
+                i = j + 1
+                continue
+            # the use: a statement (anywhere in the function, also in a nested function) whose value is the call name(args)
+            use = None
+            use_holder = None
+            for holder in ast.walk(fn):
+                for fld in ("body", "orelse", "finalbody"):
+                    blk = getattr(holder, fld, None)
+                    if not (isinstance(blk, list) and blk and isinstance(blk[0], ast.stmt)):
+                        continue
+                    for k_, x in enumerate(blk):
+                        v = getattr(x, "value", None) if isinstance(x, (ast.Return, ast.Expr, ast.Assign)) else None
+                        if isinstance(v, ast.YieldFrom):
+                            v = v.value
+                        if isinstance(v, ast.Call) and v.func is loads[0]:
+                            use, use_holder = x, (blk, k_)
+            if use is None:
+                i = j + 1
+                continue
+            call = use.value.value if isinstance(use.value, ast.YieldFrom) else use.value
+            adjacent = use_holder[0] is body and use_holder[1] == j + 1
+            if not all(isinstance(a, (ast.Name, ast.Constant, ast.Attribute)) for a in call.args) or any(k.arg is None for k in call.keywords) \
+                    or not all(isinstance(k.value, (ast.Name, ast.Constant, ast.Attribute)) for k in call.keywords):
+                i = j + 1
+                continue
+            if not adjacent and not all(stable(t_, fn) for t_ in tests_of(sel)):
+                i = j + 1
+                continue
+            # the chosen functions must be nameable at the use: names not re-bound in the function
+            frefs = [n.value for x in sel for n in ast.walk(x) if isinstance(n, ast.Assign)]
+            stored = {n.id for n in ast.walk(fn) if isinstance(n, ast.Name) and isinstance(n.ctx, (ast.Store, ast.Del))}
+            if not adjacent and any(isinstance(n, ast.Name) and n.id in stored for f_ in frefs for n in ast.walk(f_)):
+                i = j + 1
+                continue
+
+            def make(fref: ast.expr, use=use, call=call):
+                c2 = ast.Call(func=copy.deepcopy(fref), args=[copy.deepcopy(a) for a in call.args], keywords=[copy.deepcopy(k) for k in call.keywords])
+                u2 = copy.copy(use)
+                if isinstance(use.value, ast.YieldFrom):
+                    u2.value = ast.copy_location(ast.YieldFrom(value=c2), use.value)
+                else:
+                    u2.value = c2
+                return u2
+            new_sel = sequence_push(sel, name, make, push)
+            for x in new_sel:
+                for y in ast.walk(x):
+                    if isinstance(y, (ast.stmt, ast.expr)) and not hasattr(y, "lineno"):
+                        ast.copy_location(y, use)
+            blk, k_ = use_holder
+            if blk is body:
+                # remove the selection, replace the use (indices shift)
+                blk[k_:k_ + 1] = new_sel
+                del body[i:j + 1]
+            else:
+                blk[k_:k_ + 1] = new_sel
+                del body[i:j + 1]
+            if not body:
+                body.append(ast.Pass())
+            # restart on this function
+            i = 0
     ast.fix_missing_locations(tree)
 
 
@@ -721,15 +788,43 @@ def loop_target_unpack(tree: ast.Module) -> None:
             if not (isinstance(st.target, ast.Name) and st.body):
                 continue
             v = st.target.id
-            first = st.body[0]
+            # leading filters `if <test>: continue` that read v only as v[<int>]
+            k = 0
+            while k < len(st.body) and isinstance(st.body[k], ast.If) and not st.body[k].orelse and len(st.body[k].body) == 1 and isinstance(st.body[k].body[0], ast.Continue):
+                k += 1
+            if k >= len(st.body):
+                continue
+            first = st.body[k]
             if not (isinstance(first, ast.Assign) and len(first.targets) == 1 and isinstance(first.targets[0], (ast.Tuple, ast.List)) and isinstance(first.value, ast.Name) and first.value.id == v
                     and all(isinstance(x, ast.Name) for x in first.targets[0].elts)):
                 continue
+            names = [x.id for x in first.targets[0].elts]
+            sub_uses = []
+            okf = True
+            for f_ in st.body[:k]:
+                for n in ast.walk(f_.test):
+                    if isinstance(n, ast.Subscript) and isinstance(n.value, ast.Name) and n.value.id == v:
+                        if isinstance(n.slice, ast.Constant) and isinstance(n.slice.value, int) and 0 <= n.slice.value < len(names):
+                            sub_uses.append(n)
+                        else:
+                            okf = False
+                    # the unpacked names must not already be read by the filters
+                    if isinstance(n, ast.Name) and n.id in names:
+                        okf = False
             uses = sum(1 for n in ast.walk(fn) if isinstance(n, ast.Name) and n.id == v)
-            if uses != 2:  # the loop target and the unpacking
+            if not okf or uses != 2 + len(sub_uses):  # the loop target, the unpacking, and the v[i] reads of the filters
                 continue
-            st.target = ast.copy_location(ast.Tuple(elts=[ast.Name(id=x.id, ctx=ast.Store()) for x in first.targets[0].elts], ctx=ast.Store()), st.target)
-            st.body = st.body[1:] or [ast.copy_location(ast.Pass(), first)]
+            # the names must be new at this point: not used elsewhere before being bound here is guaranteed by Python scoping only if they are
+            # not read between loop head and unpacking - checked above
+            for f_ in st.body[:k]:
+                class S(ast.NodeTransformer):
+                    def visit_Subscript(self, n: ast.Subscript):
+                        if any(n is u for u in sub_uses):
+                            return ast.copy_location(ast.Name(id=names[n.slice.value], ctx=ast.Load()), n)
+                        return self.generic_visit(n)
+                f_.test = S().visit(f_.test)
+            st.target = ast.copy_location(ast.Tuple(elts=[ast.Name(id=x, ctx=ast.Store()) for x in names], ctx=ast.Store()), st.target)
+            st.body = (st.body[:k] + st.body[k + 1:]) or [ast.copy_location(ast.Pass(), first)]
     ast.fix_missing_locations(tree)
 
 
@@ -1063,3 +1158,179 @@ def dict_dispatch_calls(tree: ast.Module) -> None:
                 if st in fn.body:
                     fn.body.remove(st)
     ast.fix_missing_locations(tree)
+
+
+# ---------------------------------------------------------------------------
+
+def double_negation(tree: ast.Module) -> None:
+    """not not X (in a test position) -> X;  not (a == b) -> a != b and the like for single comparisons."""
+    flip = {ast.Eq: ast.NotEq, ast.NotEq: ast.Eq, ast.Is: ast.IsNot, ast.IsNot: ast.Is, ast.In: ast.NotIn, ast.NotIn: ast.In}
+
+    def simp(e: ast.expr) -> ast.expr:
+        while isinstance(e, ast.UnaryOp) and isinstance(e.op, ast.Not) and isinstance(e.operand, ast.UnaryOp) and isinstance(e.operand.op, ast.Not):
+            e = e.operand.operand
+        if isinstance(e, ast.UnaryOp) and isinstance(e.op, ast.Not) and isinstance(e.operand, ast.Compare) and len(e.operand.ops) == 1 and type(e.operand.ops[0]) in flip:
+            c = e.operand
+            return ast.copy_location(ast.Compare(left=c.left, ops=[flip[type(c.ops[0])]()], comparators=c.comparators), e)
+        return e
+
+    for n in ast.walk(tree):
+        if isinstance(n, (ast.If, ast.While, ast.IfExp)):
+            n.test = simp(n.test)
+        elif isinstance(n, ast.comprehension):
+            n.ifs = [simp(x) for x in n.ifs]
+    ast.fix_missing_locations(tree)
+
+
+def split_tuple_assign(tree: ast.Module) -> None:
+    """a, b = (x, y)  ->  a = x; b = y   when the right-hand sides are read-only expressions and no right-hand side reads a target assigned
+    before it (so that evaluating them one after the other gives the same values)."""
+    for holder in ast.walk(tree):
+        for fld in ("body", "orelse", "finalbody"):
+            body = getattr(holder, fld, None)
+            if not (isinstance(body, list) and body and isinstance(body[0], ast.stmt)):
+                continue
+            out: List[ast.stmt] = []
+            changed = False
+            for st in body:
+                if isinstance(st, ast.Assign) and len(st.targets) == 1 and isinstance(st.targets[0], (ast.Tuple, ast.List)) and isinstance(st.value, (ast.Tuple, ast.List)) \
+                        and len(st.targets[0].elts) == len(st.value.elts) and all(isinstance(t, ast.Name) for t in st.targets[0].elts) \
+                        and not any(isinstance(v, ast.Starred) for v in st.value.elts):
+                    tn = [t.id for t in st.targets[0].elts]
+                    ok = True
+                    for i, v in enumerate(st.value.elts):
+                        reads = {n.id for n in ast.walk(v) if isinstance(n, ast.Name)}
+                        if reads & set(tn[:i]):
+                            ok = False
+                        if i > 0 and not _read_only_or_single_call(v):
+                            ok = False
+                    if ok:
+                        for t, v in zip(st.targets[0].elts, st.value.elts):
+                            out.append(ast.copy_location(ast.Assign(targets=[t], value=v), st))
+                        changed = True
+                        continue
+                out.append(st)
+            if changed:
+                setattr(holder, fld, out)
+    ast.fix_missing_locations(tree)
+
+
+def _read_only_or_single_call(e: ast.AST) -> bool:
+    return True  # evaluation order left to right is kept by the statement order
+
+
+def iterator_aliases(tree: ast.Module) -> None:
+    """v = iter(p) with p a parameter annotated as an iterator (Iterator[..], Generator[..], or the repo's MSD_ITERATOR alias), v bound once and p not
+    used afterwards except through v: iter() of an iterator is the iterator itself, so v is p."""
+    for fn in [n for n in ast.walk(tree) if isinstance(n, (ast.FunctionDef, ast.AsyncFunctionDef))]:
+        iters = set()
+        for a in fn.args.posonlyargs + fn.args.args + fn.args.kwonlyargs:
+            if a.annotation is not None and any(w in ast.unparse(a.annotation) for w in ("Iterator", "ITERATOR", "Generator")):
+                iters.add(a.arg)
+        if not iters:
+            continue
+        for i, st in enumerate(fn.body):
+            if isinstance(st, ast.Assign) and len(st.targets) == 1 and isinstance(st.targets[0], ast.Name) and isinstance(st.value, ast.Call) and isinstance(st.value.func, ast.Name) \
+                    and st.value.func.id == "iter" and len(st.value.args) == 1 and isinstance(st.value.args[0], ast.Name) and st.value.args[0].id in iters and not st.value.keywords:
+                v, p = st.targets[0].id, st.value.args[0].id
+                if sum(1 for n in ast.walk(fn) if isinstance(n, ast.Name) and n.id == v and isinstance(n.ctx, ast.Store)) != 1:
+                    continue
+                if sum(1 for n in ast.walk(fn) if isinstance(n, ast.Name) and n.id == p and isinstance(n.ctx, ast.Store)) != 0:
+                    continue
+                for n in ast.walk(fn):
+                    if isinstance(n, ast.Name) and n.id == v and isinstance(n.ctx, ast.Load):
+                        n.id = p
+                fn.body[i] = ast.copy_location(ast.Pass(), st)
+        fn.body = [s for s in fn.body if not isinstance(s, ast.Pass)] or [ast.Pass()]
+    ast.fix_missing_locations(tree)
+
+
+def tail_return_to_break(tree: ast.Module) -> None:
+    """A bare `return` inside the loop that is the last statement of a function (no else clause, not nested in another loop, not inside
+    try / with) leaves the function exactly as `break` does."""
+    for fn in [n for n in ast.walk(tree) if isinstance(n, (ast.FunctionDef, ast.AsyncFunctionDef))]:
+        if not fn.body or not isinstance(fn.body[-1], (ast.For, ast.While)) or fn.body[-1].orelse:
+            continue
+        if any(isinstance(n, (ast.Yield, ast.YieldFrom)) for n in ast.walk(fn)):
+            pass  # a generator's bare return also just ends it
+        loop = fn.body[-1]
+
+        def conv(stmts: List[ast.stmt]) -> None:
+            for i, x in enumerate(stmts):
+                if isinstance(x, ast.Return) and x.value is None:
+                    stmts[i] = ast.copy_location(ast.Break(), x)
+                elif isinstance(x, ast.If):
+                    conv(x.body)
+                    conv(x.orelse)
+                # loops / try / with / nested defs: not entered
+        conv(loop.body)
+    ast.fix_missing_locations(tree)
+
+
+def hoist_next_in_tests(tree: ast.Module) -> None:
+    """if <test whose first evaluated sub-expression is next(IT[, d])>: ..   ->   _nx = next(IT[, d]); if <test over _nx>: ..
+    (the consumed element gets a name, so that the decision is a decision about that element)."""
+    counter = [0]
+
+    def spine(e: ast.AST) -> Optional[Tuple[ast.AST, str]]:
+        """(holder, field) of the next(..) call when it is the first thing the expression evaluates."""
+        cur = e
+        par: Optional[Tuple[ast.AST, str]] = None
+        while True:
+            if isinstance(cur, ast.Call) and isinstance(cur.func, ast.Name) and cur.func.id == "next" and 1 <= len(cur.args) <= 2 and not cur.keywords \
+                    and isinstance(cur.args[0], ast.Name):
+                return par
+            if isinstance(cur, ast.Compare):
+                par, cur = (cur, "left"), cur.left
+            elif isinstance(cur, ast.UnaryOp):
+                par, cur = (cur, "operand"), cur.operand
+            elif isinstance(cur, ast.Attribute):
+                par, cur = (cur, "value"), cur.value
+            elif isinstance(cur, ast.Call) and isinstance(cur.func, ast.Attribute):
+                par, cur = (cur.func, "value"), cur.func.value
+            elif isinstance(cur, ast.Subscript):
+                par, cur = (cur, "value"), cur.value
+            else:
+                return None
+
+    for holder in ast.walk(tree):
+        for fld in ("body", "orelse", "finalbody"):
+            body = getattr(holder, fld, None)
+            if not (isinstance(body, list) and body and isinstance(body[0], ast.stmt)):
+                continue
+            out: List[ast.stmt] = []
+            changed = False
+            for st in body:
+                if isinstance(st, ast.If):
+                    sp = spine(st.test)
+                    if sp is not None:
+                        h, f = sp
+                        counter[0] += 1
+                        nm = f"_nx{counter[0]}"
+                        call = getattr(h, f)
+                        setattr(h, f, ast.copy_location(ast.Name(id=nm, ctx=ast.Load()), call))
+                        out.append(ast.copy_location(ast.Assign(targets=[ast.Name(id=nm, ctx=ast.Store())], value=call), st))
+                        changed = True
+                out.append(st)
+            if changed:
+                setattr(holder, fld, out)
+    ast.fix_missing_locations(tree)
+
+
+def empty_yield_from(tree: ast.Module) -> None:
+    """yield from () / [] / iter(()) / iter([]) yields nothing: the statement is dropped (a `pass` when the block would be empty)."""
+    def empty(e: ast.AST) -> bool:
+        if isinstance(e, (ast.Tuple, ast.List)) and not e.elts:
+            return True
+        return isinstance(e, ast.Call) and isinstance(e.func, ast.Name) and e.func.id == "iter" and len(e.args) == 1 and not e.keywords and empty(e.args[0])
+
+    for holder in ast.walk(tree):
+        for fld in ("body", "orelse", "finalbody"):
+            body = getattr(holder, fld, None)
+            if not (isinstance(body, list) and body and isinstance(body[0], ast.stmt)):
+                continue
+            new = [st for st in body if not (isinstance(st, ast.Expr) and isinstance(st.value, ast.YieldFrom) and empty(st.value.value))]
+            if len(new) != len(body):
+                if not new and fld == "body":
+                    new = [ast.copy_location(ast.Pass(), body[0])]
+                setattr(holder, fld, new)
